@@ -366,6 +366,8 @@ class BaseNestedSampler(ABC):
         sampler.model = model
         sampler.resumed = True
         sampler.checkpoint_callback = checkpoint_callback
+        # Time spent before resuming must not be counted as sampling time
+        sampler.sampling_start_time = datetime.datetime.now()
         return sampler
 
     @classmethod
